@@ -162,11 +162,34 @@ def run_harness(scratch, src, crate, fullname, h):
     # full trace per cover witness and the Kani driver needs > 10 GB to load them. They run
     # without playback first and are re-run with it only when an assertion fails.
     want_playback = not h.get("big", False)
-    cmd = kani_cmd(src, tdir, crate, fullname, h, playback=want_playback)
     env = dict(os.environ)
     env["CARGO_NET_OFFLINE"] = "true"
     env.pop("RUSTUP_TOOLCHAIN", None)
     t0 = time.time()
+    h = dict(h)
+    if h.get("unwindset"):
+        # Per-loop bounds by name pattern. Loop identifiers are mangled, so they are resolved on
+        # every run: build the harness (a `--show-loops` pass; the Kani driver cannot parse that
+        # output and stops, the goto binary stays), list its loops with cbmc, match the patterns.
+        pre = kani_cmd(src, tdir, crate, fullname, dict(h, cbmc_args=["--show-loops"]), playback=False)
+        with open(logp + ".loops", "w") as lf:
+            subprocess.run(["bash", "-c", "ulimit -v %d; exec %s" % (mem_kb, " ".join(map(shquote, pre)))],
+                           cwd=src, stdout=lf, stderr=subprocess.STDOUT, env=env, timeout=timeout + 600)
+        ids = []
+        import glob
+        outs = [f for f in glob.glob(os.path.join(tdir, "kani", "**", "*%s.out" % name), recursive=True)
+                if not f.endswith(".symtab.out")]
+        if outs:
+            r = sh(["cbmc", "--show-loops", sorted(outs, key=os.path.getmtime)[-1]])
+            loops = re.findall(r"^Loop (\S+):", r.stdout, re.M)
+            for pat, bound in h["unwindset"]:
+                for lid in loops:
+                    if pat in lid:
+                        ids.append("%s:%d" % (lid, bound))
+        if ids:
+            h["cbmc_args"] = list(h.get("cbmc_args") or []) + ["--unwindset", ",".join(ids)]
+        h["_unwindset_resolved"] = ids
+    cmd = kani_cmd(src, tdir, crate, fullname, h, playback=want_playback)
     with open(logp, "w") as lf:
         shcmd = "ulimit -v %d; exec %s" % (mem_kb, " ".join(map(shquote, cmd)))
         p = subprocess.Popen(["bash", "-c", shcmd], cwd=src, stdout=lf, stderr=subprocess.STDOUT,
@@ -202,6 +225,7 @@ def run_harness(scratch, src, crate, fullname, h):
         res2 = parse_kani_log(open(logp2, errors="replace").read())
         res["playback"] = res2.get("playback", [])
     wall = time.time() - t0
+    res["unwindset"] = h.get("_unwindset_resolved")
     res.update(name=name, fullname=fullname, wall_s=round(wall, 1), rc=p.returncode,
                timed_out=timed_out, seeded=seeded, log=logp, cmd=" ".join(cmd))
     # drop the build output right away (disk), keep the log
@@ -627,7 +651,7 @@ def write_evidence(prop, tier, seed, P, results, wall, nviol, known_hits, digest
             "vccs": res.get("vccs"), "vccs_after_simplification": res.get("vccs_remaining"),
             "sat_vars": res.get("sat_vars"), "sat_clauses": res.get("sat_clauses"),
             "solver_queries": res.get("solver_queries"),
-            "cmd": res.get("cmd"),
+            "cmd": res.get("cmd"), "per_loop_unwind": res.get("unwindset"),
             "replay_reproduced": res.get("replay_reproduced"),
         })
         # one witness per harness as a sample: the cover conditions with Kani's concrete values
